@@ -11,11 +11,19 @@ pub mod c05;
 #[cfg(kani)]
 pub mod c03;
 #[cfg(kani)]
+pub mod c07;
+#[cfg(kani)]
 pub mod c08;
 #[cfg(kani)]
 pub mod c09;
 #[cfg(kani)]
 pub mod c10;
+#[cfg(kani)]
+pub mod c12;
+#[cfg(kani)]
+pub mod c13;
+#[cfg(kani)]
+pub mod c14;
 #[cfg(kani)]
 pub mod c18;
 #[cfg(kani)]
